@@ -170,7 +170,9 @@ fn file_case(toks: &[&str]) -> String {
     drop(sender);
     // the leftover's unterminated tail is not a line of this run: take it off the front (file names sort it first)
     let leftover_len = b"{\"time\":\"2020-01-01T00:00:00Z\",\"level\":\"info\",\"msg\":\"cut he".len();
-    let glued = last.len() > leftover_len && last[leftover_len] != b'{';
+    // the file that ends in the middle of a line must not have been continued: whatever is appended to it shares a
+    // physical line with the cut one
+    let glued = std::fs::read(td.path().join("log.20200101T000000Z-0")).map(|c| c.len() != leftover_len).unwrap_or(true);
     let last: Vec<u8> = last[leftover_len.min(last.len())..].to_vec();
     let start_end = last.iter().position(|b| *b == b'\n').map_or(0, |p| p + 1);
     let start_line = &last[..start_end];
